@@ -30,7 +30,8 @@
   (a set of intersections keyed by (segment index, distance), two monotone flags, the
   `is_isolated` flags) does not depend on the order in which the pairs are visited as long as
   equal keys carry equal coordinates — which holds in exact arithmetic, where every recorded
-  point lies on its segment.
+  point lies on its segment (proved: `selfNoding_order_independent`,
+  `mutualPhase_order_independent` in GeoProofs/Props/C01.lean).
 
   Exactness.  Everything is exact but one thing: for a *proper* crossing `line_intersection`
   returns a float pair near the crossing point (C11 bounds the error), and self-noding makes that
